@@ -763,6 +763,16 @@ def nat_grad_span(rng):
     for ik in range(at.kpts.Nk):
         g = get_grad(scf, ik, 0, W)
         e = max(e, np.abs(W[ik][0].conj().T @ g).max() / max(1.0, np.abs(g).max()))
+    # orbitals that are ALMOST orthonormal (orthonormal ones rescaled / mixed by 1 + O(eps), eps = 1e-4 ... 1e-9: the state of every minimiser after a step):
+    # the gradient is orthogonal to their span as well, no threshold separates "orthonormal" from "not orthonormal"
+    from eminus.dft import orth
+
+    Y = [np.asarray(y) for y in orth(at, W)]
+    for eps in (1e-4, 1e-6, 1e-7, 1e-9):
+        Wn = [y @ (np.eye(y.shape[-1]) + eps * (np.diag(rng.uniform(0.5, 1.5, y.shape[-1])) + 0.3 * rnd(rng, y.shape[-1], y.shape[-1]))) for y in Y]
+        for ik in range(at.kpts.Nk):
+            g = get_grad(scf, ik, 0, Wn)
+            e = max(e, np.abs(Wn[ik][0].conj().T @ g).max() / max(1.0, np.abs(g).max()))
     # the energy does not change under invertible mixing of the orbitals - in particular not under a change of their overall scale, down to small norms
     from eminus.energies import get_E
 
@@ -886,6 +896,12 @@ def _nat_phi_err(rng, at):
     e = max(e, abs(phi[0]))
     m = rng.random(at.Ns)
     e = max(e, np.abs(get_phi(at, 2 * n + m) - 2 * phi - get_phi(at, m)).max())
+    # homogeneity down to tiny amplitudes (perturbation densities, spectral tails): phi(c n) = c phi(n), compared RELATIVELY, c = 1e-6 ... 1e-30
+    ref_scale = float(np.abs(np.asarray(phi)).max())
+    for c in (1e-6, 1e-12, 1e-16, 1e-30):
+        e = max(e, float(np.abs(np.asarray(get_phi(at, c * n)) / c - np.asarray(phi)).max() / ref_scale))
+    tiny = np.real(np.asarray(at.I(get_phi(at, 1e-15 * cosn))))
+    e = max(e, float(np.abs(tiny / 1e-15 - 4 * np.pi / G2[ig] * cosn).max() / (4 * np.pi / G2[ig])))
     # fields whose grid sum is EXACTLY zero (a +1 / -1 double layer, the Nyquist cosine of an even axis): the G = 0 coefficient is 0 / 0 before it is
     # removed; field and energy stay finite, the mean is zero, the energy is >= 0
     from eminus.energies import get_Ecoul
